@@ -25,7 +25,8 @@ pub const KINDS: &[&str] = &[
     "osu file format v2147483648", "osu file format v-5", "osu file format v 7 ", " osu file format v14", "osu file format", "[General]", "[Editor]", "[Metadata]", "[Difficulty]", "[Events]", "[TimingPoints]", "[Colours]",
     "[HitObjects]", "[Variables]", "[CatchTheBeat]", "[Mania]", "[Unknown]", "[Colors]", "[general]", " [General]", "[General] // x", "[General]x", "[]", "[General", "General]", "[[General]]", "[ General ]", "Mode: 1",
     "Title:a // b", "Title: Re:Zero", "0,0,\"bg.png\",0,0", "10,500,4,1,0,100,1,0", "Combo1: 1,2,3", "256,192,100,1,0,0:0:0:0:", "garbage", "a:b:c", "100,100,200,2,0,B|1:1|2:2,1,50", "x\ry", "\u{3000}", "Title:\u{4e00}x",
-    "Title:é", "Artist:\u{1F600} tail", "BeatDivisor: x", "HPDrainRate:NaN", "-1,-1,-1", "2,100,50", "[HitObjects]\t", "[Events]   ", "//[General]", "$var=1", "Mania: 4K",
+    "Title:é", "Artist:\u{1F600} tail", "BeatDivisor: x", "HPDrainRate:NaN", "-1,-1,-1", "2,100,50", "[HitObjects]\t", "[Events]   ", "//[General]", "$var=1", "Mania: 4K", "[Metadata)", "[General}", "[HitObjects1", "(General]", "[General]]", "{General}", "[TimingPoints>", " Mode: 3", "_indented", " 256,192,100,1,0",
+    "Title:x // y", "Artist:AC//DC",
 ];
 
 /// Characters whose UTF-16 code units contain the byte 0x0A (or 0x0D): framing must not be confused by them.
@@ -55,7 +56,7 @@ impl Scenario for C05 {
         vec![
             "the ~60-line reference router (sim/src/models/router.rs) is the trusted base; it was written from the statement and validated on the tree".into(),
             "version lines with several 'v' after the prefix are outside the alphabet (the statement does not fix their meaning)".into(),
-            "section parsers are stubs here: what they do with a line is C06/C11/C12/C14".into(),
+            "half of the runs use stub section parsers (Rec); the other half run one of the nine real decoders behind the pass-through Probe<D>, so a decoder-specific should_skip_line override is exercised; what the parsers do with a line is C06/C11/C12/C14".into(),
         ]
     }
     fn components(&self) -> J {
@@ -98,6 +99,7 @@ impl Scenario for C05 {
             let mut p = Plan::new("C05", "enumerated", seed, idx);
             p.data = encode_text(&s, ENCS[e]);
             p.set("enc", e as i64);
+            p.set("dec", ((idx - nb) / 4 % 10) as i64);
             // one-shot delivery for the enumerated part (delivery is varied in the seeded part)
             return p;
         }
@@ -107,6 +109,7 @@ impl Scenario for C05 {
             p.data = encode_text(&file_text(&self.corpus.files[f].1), ENCS[(idx % 4) as usize]);
             p.set("enc", (idx % 4) as i64);
             p.note = self.corpus.files[f].0.clone();
+            p.set("dec", (idx % 10) as i64);
             plan_transport(&mut rng, &mut p, true);
             return p;
         }
@@ -124,6 +127,7 @@ impl Scenario for C05 {
         let e = rng.below(4);
         p.data = encode_text(&s, ENCS[e]);
         p.set("enc", e as i64);
+        p.set("dec", if rng.chance(1, 2) { 0 } else { 1 + rng.below(9) as i64 });
         plan_transport(&mut rng, &mut p, true);
         p
     }
@@ -131,13 +135,15 @@ impl Scenario for C05 {
         let data = &plan.data[..];
         let tail = plan.get("tail").max(0) as usize;
         let mut dev = SimReader::new(data, &plan.sched, tail, &plan.eintr, None).record_boundaries();
+        let which = plan.get("dec").rem_euclid(10);
+        st.inc(if which == 0 { "handlers.stub-recorder" } else { "handlers.real-decoder-behind-probe" });
         let real = if plan.get("t") == T_BUFREADER {
             st.inc(crate::transport::transport_name(T_BUFREADER));
             st.inc("fired.R6-std-BufReader-composition");
-            Rec::decode(BufReader::with_capacity(plan.get_or("cap", 8).max(1) as usize, DevRef(&mut dev)))
+            deliveries(which, BufReader::with_capacity(plan.get_or("cap", 8).max(1) as usize, DevRef(&mut dev)))
         } else {
             st.inc(crate::transport::transport_name(T_SIM));
-            Rec::decode(&mut dev)
+            deliveries(which, &mut dev)
         };
         note_read_stats(st, data, &dev.st);
         if dev.st.budget_exceeded {
@@ -163,6 +169,28 @@ impl Scenario for C05 {
     fn reach_probes(&self) -> Vec<&'static str> {
         vec!["fired.R1-chunking(runs-with>=2-chunks)", "fired.R2-first-chunk-lt3", "fired.R3-interrupted", "fired.R6-std-BufReader-composition", "probe.boundary-between-CR-and-LF", "probe.boundary-between-LE-LF-and-its-00", "probe.boundary-inside-BOM"]
     }
+}
+
+/// Delivery history through the stub recorder (0) or through one of the nine real decoders behind the pass-through
+/// probe (1..=9) — the latter also exercises any `should_skip_line` override of that decoder.
+fn deliveries<R: std::io::BufRead>(which: i64, r: R) -> std::io::Result<Rec> {
+    use crate::probe::Probe;
+    use rosu_map::section::{colors::Colors, difficulty::Difficulty, editor::Editor, events::Events, general::General, hit_objects::HitObjects, metadata::Metadata, timing_points::TimingPoints};
+    fn conv<D: DecodeBeatmap>(p: Probe<D>) -> Rec {
+        Rec { version: p.version, log: p.log.into_iter().map(|(s, l, _)| (s, l)).collect() }
+    }
+    Ok(match which {
+        1 => conv(Probe::<rosu_map::Beatmap>::decode(r)?),
+        2 => conv(Probe::<General>::decode(r)?),
+        3 => conv(Probe::<Editor>::decode(r)?),
+        4 => conv(Probe::<Metadata>::decode(r)?),
+        5 => conv(Probe::<Difficulty>::decode(r)?),
+        6 => conv(Probe::<Events>::decode(r)?),
+        7 => conv(Probe::<Colors>::decode(r)?),
+        8 => conv(Probe::<TimingPoints>::decode(r)?),
+        9 => conv(Probe::<HitObjects>::decode(r)?),
+        _ => Rec::decode(r)?,
+    })
 }
 
 fn compare(real: &Rec, model: &Routed, data: &[u8]) -> Result<(), Violation> {
